@@ -259,7 +259,7 @@ func init() {
 	register(&Check{ID: "C20", Run: func(c *Ctx) {
 		depth := 2
 		if c.Thorough() {
-			depth = 3
+			depth = 4
 		}
 		c.Bounds["nesting_depth"] = depth
 		c.Bounds["root_definitions"] = len(c20Root())
